@@ -280,9 +280,10 @@ func (h *heapRun) applyQuery(o *obj, st Step, ret map[string]interface{}) bool {
 	case "string":
 		ret["n"] = len(al.String())
 	case "dist":
-		if al.Alphabet() != align.NUCLEOTIDS || al.NbSequences() < 2 {
+		if al.NbSequences() < 2 {
 			return true
 		}
+		// (an alignment that is not nucleotidic is refused: the refusal must leave it as it is, alphabet included)
 		m, err := dna.Model("k2p", true)
 		if err == nil {
 			_, err = dna.DistMatrix(al, nil, m, -1, -1, -1, -1, false, 0, 2)
